@@ -31,17 +31,42 @@ def check_url_params_fresh(rep, rule):
     route = repo.mod('clastic.route')
     mp = route.func('BoundRoute.match_path')
     rets = [r for r in returns_of(mp) if not (isinstance(r.value, ast.Constant) and r.value.value is None)]
-    ok = len(rets) >= 1 and all(isinstance(r.value, ast.Name) for r in rets) and len(set(norm(r.value) for r in rets)) == 1
-    rv = norm(rets[0].value) if ok else None
-    init = [s for s in stmts_of(mp.node) if isinstance(s, ast.Assign) and norm(s.targets[0]) == rv]
-    ok = ok and len(init) == 1 and ((isinstance(init[0].value, ast.Dict) and not init[0].value.keys) or
-                                    (isinstance(init[0].value, ast.Call) and norm(init[0].value.func) == 'dict'))
-    rep.check(rule, fkey(mp, 'fresh mapping'), ok, 'match_path returns a mapping created in this call' if ok else
+
+    def is_fresh_map(e):
+        return (isinstance(e, ast.Dict) and not any(k is None for k in e.keys)) or isinstance(e, ast.DictComp) or \
+            (isinstance(e, ast.Call) and norm(e.func) == 'dict')
+    # the returned mapping: a display / comprehension / dict(...) built in this call, directly or through one local
+    fresh, values = bool(rets), []
+    for r in rets:
+        e = r.value
+        stores = []
+        if isinstance(e, ast.Name):
+            init = [s for s in stmts_of(mp.node) if isinstance(s, ast.Assign) and norm(s.targets[0]) == e.id]
+            if len(init) != 1 or not is_fresh_map(init[0].value):
+                fresh = False
+                continue
+            stores = [s for s in stmts_of(mp.node) if isinstance(s, ast.Assign) and isinstance(s.targets[0], ast.Subscript)
+                      and norm(s.targets[0].value) == e.id]
+            e = init[0].value
+        if not is_fresh_map(e):
+            fresh = False
+            continue
+        if isinstance(e, ast.DictComp):
+            values.append(e.value)
+        elif isinstance(e, ast.Dict):
+            values.extend(e.values)
+        elif e.args or e.keywords:
+            a0 = e.args[0] if e.args else None
+            if isinstance(a0, (ast.ListComp, ast.GeneratorExp)) and isinstance(a0.elt, ast.Tuple) and len(a0.elt.elts) == 2:
+                values.append(a0.elt.elts[1])
+            else:
+                values.append(e)      # dict(something): values of unknown provenance
+        values.extend(s.value for s in stores)
+    rep.check(rule, fkey(mp, 'fresh mapping'), fresh, 'match_path returns a mapping created in this call' if fresh else
               'match_path does not return a mapping freshly created in this call', route, mp.node)
-    stores = [s for s in stmts_of(mp.node) if isinstance(s, ast.Assign) and isinstance(s.targets[0], ast.Subscript) and norm(s.targets[0].value) == rv]
-    ok = bool(stores) and all(isinstance(s.value, ast.Call) and 'groups' in norm(s.value) or isinstance(s.value, ast.Call) for s in stores)
+    ok = bool(values) and all(isinstance(v, ast.Call) and not (isinstance(v.func, ast.Name) and v.func.id == 'dict') for v in values)
     rep.check(rule, fkey(mp, 'values are conversions'), ok, 'every URL parameter value is the result of a converter call made in this call' if ok else
-              'a URL parameter value is not a converter call result', route, stores[0] if stores else mp.node)
+              'a URL parameter value is not a converter call result', route, values[0] if values else mp.node)
     shared = [e for e in effects.effects_in(mp.node) if e.root in ('self', 'cls') or e.root in route.assigns]
     reads_cache = [n for n in walk_body(mp.node) if isinstance(n, ast.Attribute) and isinstance(n.value, ast.Name) and n.value.id == 'self'
                    and n.attr not in ('regex', 'converters')]
